@@ -411,6 +411,13 @@ pub fn run(args: &[&str]) -> String {
             }
         }
         "hand" => op_hand(args[1], args[2].parse().unwrap(), args[3]),
+        "name" => {
+            // the piece file name the implementation derives from a listed hash
+            let h = unhex(args[1]);
+            let mut a = [0u8; 20];
+            a.copy_from_slice(&h);
+            hash_to_string(&a) + ".piece"
+        }
         "mreq" => crate::sess::op_mreq(args[1], args[2], args[3].parse().unwrap()),
         "minit" => crate::sess::op_minit(args[1]),
         "e2e" => crate::e2e02::run(args),
@@ -742,6 +749,18 @@ pub fn gen(r: &mut Rng, n: usize, flavor: &str) -> Vec<String> {
             if l.ends_with(" 2") || l.ends_with(" 3") || out.len() < 1 {
                 out.push(l);
             }
+        }
+    }
+    if flavor == "C01" {
+        // piece file names: bytes with a zero high or low digit, letters, extremes
+        for k in 0..16 {
+            let mut h = r.bytes(20);
+            let special = [0x00u8, 0x0a, 0xa0, 0xff, 0x09, 0x90, 0x10, 0x01];
+            for j in 0..(1 + k % 5) {
+                let pos = r.below(20) as usize;
+                h[pos] = special[(k + j) % special.len()];
+            }
+            out.push(format!("name {}", hex(&h)));
         }
     }
     if flavor == "C11" {
